@@ -1117,6 +1117,7 @@ func (g *gen) augments() {
 				g.injected = g.injected[:len(g.injected)-1]
 			}
 		}
+		a.Bare = t.Sub(fmt.Sprintf("bare-paths-%d", g.ctr)).Chance(1, 5)
 		am.Augments = append(am.Augments, a)
 		if a.Late {
 			// the reference model reports it as not found (outside C07's
